@@ -101,7 +101,7 @@ def real_workflow(mods, job):
     import numpy as np
     from formak import ui, python
     from formak import ui_state_machine as sm
-    from formak.exceptions import ModelFitError
+    from formak.exceptions import ModelFitError, MinimizationFailure
     idm = {v: k for k, v in _idmap(sm).items()}
     ev = []
     selections = []
@@ -168,6 +168,9 @@ def real_workflow(mods, job):
             break      # Fit_Model has no transitions: one successful fit per workflow instance
         except ModelFitError:
             e.update(outcome="refused", selected={}, exported={})
+            ev.append(e)
+        except MinimizationFailure:
+            e.update(outcome="minimization-failure", selected={}, exported={})
             ev.append(e)
         except Exception as ex:
             e.update(outcome="exception:" + type(ex).__name__, selected={}, exported={}, detail=repr(ex)[:300] + traceback.format_exc()[-500:])
